@@ -49,6 +49,11 @@ type Spec struct {
 	Package      string                 `json:"package"` // directory below /repo ("." for the root package)
 	PkgName      string                 `json:"pkgname"`
 	Harness      []string               `json:"harness"` // paths below /verif
+	// Whitebox lists the harness files (a subset of Harness) that build states directly in the
+	// library's internal representation. If the tree under verification no longer compiles with
+	// them (its representation changed) but does without them, their entries are skipped and
+	// reported, and the remaining - black-box - entries still decide the property.
+	Whitebox []string `json:"whitebox"`
 	Runs         []RunSpec              `json:"runs"`
 	Assumptions  []string               `json:"assumptions"`
 	Outside      []string               `json:"outside_the_claim"`
@@ -159,6 +164,7 @@ func runCheck(prop, tier string, seed int64, only string) int {
 		parts = []Spec{spec}
 	}
 	known := loadKnown()
+	var skipped []string
 	var results []*entryResult
 	inconclusive := []string{}
 	violations := 0
@@ -180,6 +186,31 @@ func runCheck(prop, tier string, seed int64, only string) int {
 			fatal2(err.Error())
 		}
 		eng, err = LoadEngine(part.Package, ov)
+		skipWB := ""
+		if err != nil && len(part.Whitebox) > 0 && onlyIn(err.Error(), part.Whitebox) {
+			// the white-box harness does not fit this tree's representation: go on without it
+			var rest, resth []string
+			for i, h := range part.Harness {
+				wb := false
+				for _, w := range part.Whitebox {
+					if w == h {
+						wb = true
+					}
+				}
+				if !wb {
+					rest = append(rest, hfiles[i])
+					resth = append(resth, h)
+				}
+			}
+			ov2, err2 := harnessOverlay(part.Package, part.PkgName, rt, rest)
+			if err2 == nil {
+				if eng2, err3 := LoadEngine(part.Package, ov2); err3 == nil {
+					skipWB = firstLine(strings.TrimPrefix(err.Error(), "load errors (harness or repository does not compile):\n"))
+					eng, err = eng2, nil
+					part.Harness = resth
+				}
+			}
+		}
 		if err != nil {
 			fatal2(err.Error())
 		}
@@ -209,6 +240,12 @@ func runCheck(prop, tier string, seed int64, only string) int {
 			}
 			eng.cfg = cfg
 			entry := eng.hpkg.Func(rs.Entry)
+			if entry == nil && skipWB != "" {
+				msg := fmt.Sprintf("%s: white-box entry not run - its harness builds states in the library's internal representation and does not compile against this tree (%s)", rs.Entry, strings.TrimSpace(skipWB))
+				fmt.Println("SKIPPED property=" + prop + " " + msg)
+				skipped = append(skipped, msg)
+				continue
+			}
 			if entry == nil {
 				fatal2("harness entry not found: " + rs.Entry)
 			}
@@ -295,6 +332,7 @@ func runCheck(prop, tier string, seed int64, only string) int {
 	}
 	eng.loadTime = loadT
 	wall := time.Since(t0).Seconds()
+	skippedWB = append(skippedWB, skipped...)
 	writeEvidence(prop, tier, seed, &spec, eng, results, violations, knownHits, inconclusive, replayed, wall, crossN, crossSolvers)
 	for _, l := range vioLines {
 		fmt.Println(l)
@@ -328,6 +366,30 @@ func fmtOutcomes(m map[Outcome]int) string {
 		}
 	}
 	return strings.Join(parts, ",")
+}
+
+var skippedWB = []string{}
+
+// onlyIn: every error line of a failed load names one of the given harness files.
+func onlyIn(errText string, files []string) bool {
+	n := 0
+	for _, l := range strings.Split(errText, "\n") {
+		l = strings.TrimSpace(l)
+		if l == "" || strings.HasPrefix(l, "load errors") {
+			continue
+		}
+		hit := false
+		for _, f := range files {
+			if strings.Contains(l, "zz_verif_h_"+strings.TrimSuffix(filepath.Base(f), ".go")+".go") {
+				hit = true
+			}
+		}
+		if !hit {
+			return false
+		}
+		n++
+	}
+	return n > 0
 }
 
 func writeEvidence(prop, tier string, seed int64, spec *Spec, eng *Engine, results []*entryResult, violations, knownHits int, inconclusive []string, replayed int, wall float64, crossN int, crossSolvers []string) {
@@ -415,7 +477,7 @@ func writeEvidence(prop, tier string, seed int64, spec *Spec, eng *Engine, resul
 			"solver_queries":           solverQ, "solver_time_s": round2(solverT), "solver": solverName(results),
 			"load_and_ssa_build_s": round2(eng.loadTime.Seconds()),
 			"outside_the_claim":    spec.Outside, "stubs": spec.Stubs,
-			"inconclusive": inconclusive, "known_findings_seen": knownHits,
+			"inconclusive": inconclusive, "known_findings_seen": knownHits, "skipped_whitebox_entries": skippedWB,
 			"cross_solver_check": map[string]interface{}{"queries_replayed": crossN, "solvers": crossSolvers, "note": "the complete command stream of one worker (bounded) re-decided by every listed solver; verdict sequences must agree"},
 			"source":             "encoding regenerated from /repo working tree on this run (go/packages + go/ssa, harness injected by overlay)",
 		},
